@@ -1,5 +1,7 @@
 import Batteries.Tactic.Alias
 import GenlmModel.Proofs.Cert
+import GenlmModel.Proofs.Tzeng
+import GenlmModel.Proofs.TzengMin
 /-! # C14 — equivalence and minimality certificates (exact arithmetic) -/
 namespace Genlm.Props.C14
 /-- an accepted certificate proves equal weights on ALL words -/
@@ -9,4 +11,20 @@ alias difference_automaton := Genlm.diff_weight
 alias counterexample_sound := Genlm.counterexample_sound
 /-- an accepted Hankel-minor certificate bounds the size of EVERY equivalent automaton from below -/
 alias hankel_lower_bound := Genlm.rankLower_sound
+/-! ## the equivalence test itself (model of `Simple.counterexample` with exact tests, any iteration order of the alphabet) -/
+/-- a returned string really is a counterexample, with the two weights reported -/
+alias counterexample_returned_is_genuine := Genlm.counterexampleQ_sound
+/-- "no counterexample" is reported only for automata that agree on ALL strings -/
+alias no_counterexample_means_equivalent := Genlm.counterexampleQ_equiv_sound
+/-- the search terminates within dim A + dim B worklist pops (ordered fields: no isotropic vectors) -/
+alias equivalence_test_terminates := Genlm.counterexampleQ_terminates
+/-- THE decision theorem over ℚ: no counterexample ⇔ equal weights on all strings; `==` agrees with language equality -/
+alias equivalence_test_decides := Genlm.equiv_decides_rat
+alias equality_operator_decides := Genlm.equivQ_rat
+/-- minimisation (model of forward_conjugate ∘ backward_conjugate with exact Gram–Schmidt / pseudo-inverse): terminates, equivalent,
+number of states = rank of the Hankel matrix = the minimum over all equivalent automata -/
+alias min_is_hankel_rank := Genlm.minQ_spec
+alias min_terminates := Genlm.minQ_terminates
+alias forward_basis_spans_forward_space := Genlm.forwardBasisQ_spec
+alias hankel_rank_lower_bound := Genlm.hankelRank_le_dim
 end Genlm.Props.C14
